@@ -491,6 +491,68 @@ func runC08(c *Ctx) error {
 			return err
 		}
 		c.R.Count("walk:interleaved", 1)
+		// a reorganisation between two pages: the client holds the key of the last page it was served, a heavier
+		// branch forking below (or above) that block takes over, then the client sends its key
+		for _, below := range []bool{true, false} {
+			nt, err := ingest(c, ci, l, name, nil)
+			if err != nil {
+				return err
+			}
+			if nt.best.Height < 3 {
+				break
+			}
+			op := "roots 2 -"
+			out, err := both(c, ci, l, name, ops, op)
+			if err != nil {
+				return err
+			}
+			parts := strings.Split(out, "|")
+			if len(parts) != 2 || parts[1] == "-" {
+				break
+			}
+			key := parts[1]
+			var kr *DbRow
+			for i := range nt.rows {
+				if nt.rows[i].Merkle == key && nt.rows[i].State == "LONGEST_CHAIN" {
+					kr = &nt.rows[i]
+				}
+			}
+			if kr == nil || kr.Height < 1 {
+				break
+			}
+			forkAt := kr.Height - 1 // the key's block becomes stale
+			if !below {
+				forkAt = kr.Height // the key's block stays, everything above it is replaced
+			}
+			parent := nt.chain[forkAt].Hash
+			for k := 0; k < 2; k++ {
+				var h Hdr
+				h.Version = 2
+				prev, _ := hexToWire(parent)
+				h.Prev = prev
+				h.Merkle = shaStr(fmt.Sprintf("reorg-%d-%v-%d-%d", sIdx, below, k, c.Seed))
+				h.Time = 1710000000 + uint32(k)
+				h.Bits = bitsBig
+				h.Nonce = uint32(k)
+				if k == 0 {
+					h.Bits = 0x1c00ffff // heavier than anything else in the store: the branch overtakes at once
+				}
+				aop := "add " + h.Hex()
+				ops = append(ops, aop)
+				if nt, err = ingest(c, ci, l, name, []string{aop}); err != nil {
+					return err
+				}
+				parent = nt.best.Hash
+			}
+			op = "roots 2 " + key
+			out, err = both(c, ci, l, name, ops, op)
+			if err != nil {
+				return err
+			}
+			c08PageCheck(c, nt, name+" reorg between pages", ops, op, 2, key, out)
+			c.R.Case(name+op+fmt.Sprint(below), true)
+			c.R.Count(fmt.Sprintf("walk:reorganisation between pages (key's block becomes stale: %v)", below), 1)
+		}
 		if sIdx == 0 {
 			c.R.Sample(map[string]any{"store": name, "ops": ops[:min(len(ops), 6)], "walk": "roots <bs> <key> until key = -"}, 4)
 		}
